@@ -88,6 +88,8 @@ Route(c, tg, lvl, mod, sp, de, do) ==
         effmod == IF tg.brace THEN mod ELSE tg.plain          \* flexi_logger.rs:116
         def    == usedef /\ Enabled(sp, lvl, effmod)
         defouts == IF ~def THEN <<>>
+                   ELSE IF c.primary = "stdout" THEN <<"out">>     \* PrimaryWriter::Std: no duplication
+                   ELSE IF c.primary = "stderr" THEN <<"err">>
                    ELSE (IF DupCoded(de, lvl) THEN <<"err">> ELSE <<>>)
                         \o (IF DupCoded(do, lvl) THEN <<"out">> ELSE <<>>)
                         \o (IF HasFile(c) THEN <<"file">> ELSE <<>>)
@@ -146,7 +148,7 @@ Log(tg, lvl, mod, sh) ==
            rid   == nrec + 1
            S0    == [o \in AllOutputs(cfg) |-> <<>>]
            reads == 1 + (IF sh.rec /\ inner # <<>> THEN Len(r.outs) ELSE 0)
-       IN /\ last' = [none |-> FALSE, tg |-> tg, lvl |-> lvl, mod |-> mod, spec |-> spec, dupe |-> dupe,
+       IN /\ last' = [none |-> FALSE, tg |-> tg, lvl |-> lvl, mod |-> mod, sh |-> sh, spec |-> spec, dupe |-> dupe,
                       dupo |-> dupo, rid |-> rid, o |-> Outcome(cfg, r),
                       S |-> Fan(S0, r.outs, 1, rid, clk, inner)]
           /\ clk' = IF Counting THEN clk + reads ELSE clk
@@ -155,12 +157,16 @@ Log(tg, lvl, mod, sh) ==
                   mod |-> mod, cls |-> sh.cls, hf |-> sh.hf, hl |-> sh.hl, kv |-> sh.kv, rec |-> sh.rec])
     /\ UNCHANGED <<cfg, spec, dupe, dupo, nadapt, nset>>
 
-AdaptErr(d) == /\ IF Counting THEN nadapt < MaxAdapt ELSE last.none
+\* logger_handle.rs:391: adapt_duplication_to_* is refused unless the primary writer is a MultiWriter
+Adaptable == cfg.primary \notin StdPrimaries
+AdaptErr(d) == /\ Adaptable
+               /\ IF Counting THEN nadapt < MaxAdapt ELSE last.none
                /\ d # dupe
                /\ dupe' = d /\ nadapt' = Tick(nadapt)
                /\ hist' = H([op |-> "AdaptErr", d |-> d])
                /\ UNCHANGED <<cfg, spec, dupo, clk, nrec, nset, last>>
-AdaptOut(d) == /\ IF Counting THEN nadapt < MaxAdapt ELSE last.none
+AdaptOut(d) == /\ Adaptable
+               /\ IF Counting THEN nadapt < MaxAdapt ELSE last.none
                /\ d # dupo
                /\ dupo' = d /\ nadapt' = Tick(nadapt)
                /\ hist' = H([op |-> "AdaptOut", d |-> d])
@@ -186,8 +192,8 @@ D   == Deliver(cfg.writers, last.tg, last.lvl, last.mod, last.spec, last.dupe, l
 C13_NamedExactlyOnce == Was => NamedExactlyOnce(cfg.writers, last.tg, last.lvl, last.o)
 C13_NotNamedNothing  == Was => NotNamedNothing(cfg.writers, last.tg, last.o)
 C13_CeilingRespected == Was => CeilingRespected(cfg.writers, last.lvl, last.o)
-C13_DefaultIff       == Was => DefaultIff(D, last.o)
-C13_DupIff           == Was => DupErrIff(D, last.o) /\ DupOutIff(D, last.o)
+C13_DefaultIff       == Was => DefaultIff(cfg.primary, D, last.o)
+C13_DupIff           == Was => DupErrIff(cfg.primary, D, last.o) /\ DupOutIff(cfg.primary, D, last.o)
 C13_Unknown          == Was => UnknownReported(D, last.o) /\ NoSpuriousReport(cfg.writers, last.o)
 C13_All == /\ C13_NamedExactlyOnce /\ C13_NotNamedNothing /\ C13_CeilingRespected
            /\ C13_DefaultIff /\ C13_DupIff /\ C13_Unknown
